@@ -129,6 +129,13 @@ def alts_match(evs, end, alts):
             for (jt, jk), v in zip(e['args'], vals):
                 if v is None:
                     continue        # the reference leaves this value open on this alternative
+                if isinstance(v, tuple) and v[0] == 'f64eq':
+                    # numeric equality of doubles (fp.eq: +0 = -0): for integer results compared in the floating-point domain
+                    if jk not in ('f64', 'int'):
+                        ok = False
+                        break
+                    cs.append('(fp.eq %s %s)' % (f64_of(jt, jk), v[1]))
+                    continue
                 if isinstance(v, tuple) and v[0] == 'f64':
                     # floating-point reference value; the JavaScript side may hold the number as an exact integer
                     if jk not in ('f64', 'int'):
